@@ -3,22 +3,25 @@
    usage: try_mutant.py <patch.diff> <tier> <Cnn> [<Cnn> ...]"""
 import subprocess, sys, os, time
 patch, tier, props = sys.argv[1], sys.argv[2], sys.argv[3:]
+# (a second copy of /verif whose harness depends on a scratch worktree can be used in parallel:
+#  TRY_REPO=/tmp/repo2 TRY_VERIF=/tmp/verif2)
+REPO, VERIF = os.environ.get("TRY_REPO", "/repo"), os.environ.get("TRY_VERIF", "/verif")
 def sh(*a, **k): return subprocess.run(a, stdout=subprocess.PIPE, stderr=subprocess.STDOUT, text=True, **k)
-st = sh("git", "-C", "/repo", "status", "--porcelain", "--untracked-files=no").stdout.strip()
+st = sh("git", "-C", REPO, "status", "--porcelain", "--untracked-files=no").stdout.strip()
 if st:
     print("REFUSING: /repo has local modifications:\n" + st); sys.exit(3)
-r = sh("git", "-C", "/repo", "apply", patch)
+r = sh("git", "-C", REPO, "apply", patch)
 if r.returncode != 0:
     print("patch does not apply:", r.stdout); sys.exit(3)
 try:
     for p in props:
         t0 = time.time()
-        r = sh("/verif/check", p, "--tier", tier, cwd="/verif")
+        r = sh(VERIF + "/check", p, "--tier", tier, cwd=VERIF)
         viol = [l for l in r.stdout.splitlines() if l.startswith("VIOLATION") or l.startswith("KNOWN-FINDING")]
         detail = [l for l in r.stdout.splitlines() if "  -> " in l][:3]
         print(f"{os.path.basename(os.path.dirname(patch))}/{p}: exit={r.returncode} {time.time()-t0:.0f}s", *viol[:3], *detail, sep="\n   ")
         if r.returncode == 2:
             print(r.stdout[-1500:])
 finally:
-    sh("git", "-C", "/repo", "checkout", "--", ".")
-    print("restored:", sh("git", "-C", "/repo", "status", "--porcelain", "--untracked-files=no").stdout.strip() or "clean")
+    sh("git", "-C", REPO, "checkout", "--", ".")
+    print("restored:", sh("git", "-C", REPO, "status", "--porcelain", "--untracked-files=no").stdout.strip() or "clean")
